@@ -319,3 +319,40 @@ pub fn spawn_and_recv(jobs: usize, per_job: usize) -> u64 {
 pub fn spawn_and_recv_expected(jobs: usize, per_job: usize) -> u64 {
     (0..jobs * per_job).map(|k| work(k as u64, 6) & 0xff).sum()
 }
+
+/// A thread the simulator does not know (a plain `std::thread`) produces, simulated workers
+/// consume through a bounded channel, and the caller joins the producer at the end of the scope.
+/// Wake-ups cross the border of the simulation in both directions.
+pub fn external_producer(items: usize, consumers: usize) -> u64 {
+    let (tx, rx) = mpsc::sync_channel::<u64>(2);
+    let rx = Mutex::new(rx);
+    let total = AtomicU64::new(0);
+    std::thread::scope(|threads| {
+        threads.spawn(move || {
+            for i in 0..items {
+                tx.send(work(i as u64, 7) & 0xff).unwrap();
+            }
+        });
+        rayon::scope(|s| {
+            for _ in 0..consumers {
+                s.spawn(|_| loop {
+                    let v = {
+                        let g = rx.lock().unwrap();
+                        g.recv()
+                    };
+                    match v {
+                        Ok(v) => {
+                            total.fetch_add(v, Ordering::SeqCst);
+                        }
+                        Err(_) => break,
+                    }
+                });
+            }
+        });
+    });
+    total.load(Ordering::SeqCst)
+}
+
+pub fn external_producer_expected(items: usize) -> u64 {
+    (0..items).map(|i| work(i as u64, 7) & 0xff).sum()
+}
